@@ -304,7 +304,11 @@ void LVCalc(matrix *X,
         t_old->data[i] = t_->data[i];
     }
     else{
-      if(calcConvergence(t_, t_old) < PLSCONVERGENCE){
+      if(calcConvergence(t_, t_old) < PLSCONVERGENCE || loop >= PLSMAXITERATIONS){
+        /* converged, or the iteration does not settle (latent variables computed on
+         * rounding residue, e.g. more latent variables requested than the rank):
+         * stop with the current estimate instead of iterating forever
+         */
         break;
       }
       else{
